@@ -38,6 +38,17 @@ FullFactOK(L, levels) ==
    /\ Len(L) = ProdLevels(levels, 1)
    /\ NoDuplicateRows(L)
    /\ \A i \in Rows(L), j \in 1..Len(levels) : L[i][j] \in 0..(levels[j] - 1)
+\* a level list may name a value more than once ([0, 0.5, 0.5, 1]): the combinations are those of the POSITIONS.  first[j][p] is the first
+\* position (0-based) of factor j that holds the same value as position p; rows are given by first positions.  Every row made of first
+\* positions occurs as often as the product of the multiplicities of its entries; with the total count that is the whole product again.
+Mult(f, c) == Cardinality({ q \in 1..Len(f) : f[q] = c })
+RECURSIVE ProdMult(_, _, _)
+ProdMult(first, row, j) == IF j > Len(first) THEN 1 ELSE Mult(first[j], row[j]) * ProdMult(first, row, j + 1)
+FullFactBagOK(L, levels, first) ==
+   /\ Rectangular(L, Len(levels))
+   /\ Len(L) = ProdLevels(levels, 1)
+   /\ \A i \in Rows(L), j \in 1..Len(levels) : L[i][j] \in 0..(levels[j] - 1) /\ first[j][L[i][j] + 1] = L[i][j]
+   /\ \A i \in Rows(L) : Cardinality({ k \in Rows(L) : L[k] = L[i] }) = ProdMult(first, L[i], 1)
 RECURSIVE SumUpTo(_, _, _)
 SumUpTo(D, f, i) == IF i > Len(D) THEN 0 ELSE f[i] + SumUpTo(D, f, i + 1)
 ColSum(D, a) == SumUpTo(D, [ i \in Rows(D) |-> D[i][a] ], 1)
